@@ -307,7 +307,7 @@ def project_argv(cwd: str, argv: T.List[str], builddir: str) -> T.Tuple[str, T.L
 # ---------------------------------------------------------------------------
 # flags -> argv of `meson compile`
 
-def render_flags(f: T.Dict[str, T.Any], rnd: random.Random) -> T.List[str]:
+def render_flags(f: T.Dict[str, T.Any], rnd: random.Random, args_opt: str = '--ninja-args') -> T.List[str]:
     out: T.List[str] = []
     groups: T.List[T.List[str]] = []
     if f['clean']:
@@ -332,7 +332,7 @@ def render_flags(f: T.Dict[str, T.Any], rnd: random.Random) -> T.List[str]:
             val = ','.join(na)               # [CMD] "a single string ... values separated by commas"
         else:
             val = '[' + ', '.join("'" + a.replace('\\', '\\\\').replace("'", "\\'") + "'" for a in na) + ']'
-        groups.append(['--ninja-args=' + val])
+        groups.append([args_opt + '=' + val])
     rnd.shuffle(groups)
     for g in groups:
         out += g
